@@ -225,6 +225,13 @@ def corpus(ctx, rng):
                     jobs.append({"what": f"assign-only on protonated {'-'.join(seq)} ff={ff} renamed={sorted(rename)}", "text": gen.pdb_text(chains),
                                  "args": [f"--ff={ff}", "--assign-only"], "prerun": [f"--ff={ff}"], "rename": rename,
                                  "truth": truth(chains), "strands": []})
+    # a large protonated model (> 500 residues) with one hydroxyl hydrogen deleted, re-assigned: a run that cannot give integral
+    # charges must not succeed whatever the size of the system (when it is refused there is nothing to judge)
+    big = [gen.transform(gen.peptide([gen.AMINO[(c + j) % 20] for j in range(20)], chain="ABCDEFGHIJKLMNOPQRSTUVWXYZ"[c], start=1), t=(0, 0, 40.0 * c))
+           for c in range(26)]
+    ser = next(a for a in big[3] if a["resname"] == "SER")
+    jobs.append({"what": "520 residues protonated, one HG deleted, assign-only ff=AMBER", "text": gen.pdb_text(big), "args": ["--ff=AMBER", "--assign-only"],
+                 "prerun": ["--ff=AMBER", "--noopt", "--nodebump"], "rename": {}, "delete": [["D", ser["resseq"], "HG"]], "truth": truth(big), "strands": []})
     # many chains without chain identifiers (TER-separated)
     for nch in ([5, 63] if ctx.quick else [2, 5, 26, 52, 62, 63, 64, 70]):
         for oxt in (True, False):
@@ -246,6 +253,15 @@ def corpus(ctx, rng):
                            "c": False, "nn": False, "nc": False, "real": True})
     for ff in (["AMBER", "PARSE"] if ctx.quick else ffs):
         jobs.append({"what": f"5vav cyclic ff={ff}", "text": cyc_text, "args": [f"--ff={ff}"], "truth": tr, "strands": []})
+    # the cyclic peptide next to other chains: a linear peptide, waters with a chain id of their own
+    body = "\n".join(ln for ln in cyc_text.split("\n") if ln.startswith(("ATOM", "HETATM", "TER")))
+    other = gen.transform(gen.peptide(["LYS", "ALA", "ASP", "GLY"], chain="B", start=101), t=(60.0, 0, 0))
+    wch = gen.water((40, 40, 40), chain="W", resseq=201) + gen.water((44, 40, 40), chain="W", resseq=202)
+    for label, extra in (("linear chain B", [other]), ("water chain W", [wch]), ("chain B and waters", [other, wch])):
+        text = body + "\n" + gen.pdb_text(extra)
+        for ff in (["AMBER"] if ctx.quick else ["AMBER", "PARSE", "CHARMM"]):
+            jobs.append({"what": f"5vav cyclic + {label} ff={ff}", "text": text, "args": [f"--ff={ff}"],
+                         "truth": tr + truth(extra), "strands": []})
     return jobs
 
 
@@ -265,6 +281,8 @@ def _pipe_job(job):
         for ln in open(os.path.join(wd, "pre_H.pdb")).read().split("\n"):
             if ln.startswith(("ATOM", "HETATM")) and ln[17:20] in job.get("rename", {}):
                 ln = ln[:17] + job["rename"][ln[17:20]] + ln[20:]
+            if ln.startswith(("ATOM", "HETATM")) and [ln[21:22].strip(), int(ln[22:26]), ln[12:16].strip()] in job.get("delete", []):
+                continue
             lines.append(ln)
         open(os.path.join(wd, "in.pdb"), "w").write("\n".join(lines))
     r = runner.run(job["args"] + [os.path.join(wd, "in.pdb"), os.path.join(wd, "o.pqr")])
